@@ -4,8 +4,15 @@ Property theorems only; helper lemmas live in CV/Proofs/Tar.lean, the model in C
 
 Parameters of every theorem (nothing is assumed about them unless a hypothesis says so):
   `H`      the digest function (`crypto/sha256` in the code),
-  `apply`  `json.Unmarshal(buf, &metadata)` onto the current metadata struct,
+  `apply`  `json.Unmarshal(buf, &metadata)` onto the current metadata struct: an arbitrary partial
+           function (`none` = Unmarshal returned an error). No theorem assumes anything about it
+           except `roundtrip`, whose hypothesis `hcodec` is the complete JSON contract; in
+           particular every rejection theorem holds for any decoder whatsoever, and "equal
+           metadata" always means: the value `apply` produced from the same payload sequence.
   `m0`     the caller's metadata struct before the call.
+Trusted about `archive/tar`: it presents members in order with their data, reports a short read
+or a failed `Next` as an error, and accepts a header block only if it passes the checksum gate
+(`checksumOK`, CV/Tar.lean). Trusted about `compress/gzip`: `GzContract`.
 "Rejected" means `readStream … = .error e`: `read` returns an error, so `Verify`/`Read` return
 an error and `Restore` never calls raft (`restore_only_after_verification`).
 -/
@@ -29,10 +36,12 @@ theorem rejected_of_not_accepted (s : Stream)
 
 /-- **Round trip.** Whatever `write` archives — in either order of the two SHA256SUMS lines
     (the code ranges over a Go map) — `read` accepts and returns the same metadata and exactly
-    the `metadata.Size` bytes of state that were written. Needs only that the JSON codec
-    decodes what it encoded (`hcodec`) and that digests are 32 bytes. -/
+    the `metadata.Size` bytes of state that were written. The whole contract asked of
+    `encoding/json` is `hcodec`: decoding the bytes `Encode` produced for THIS metadata onto the
+    caller's struct `m0` succeeds and yields it (checked on the real codec by the harness monitors
+    `roundtrip:metadata-differs` and `json:contract`); digests must be 32 bytes. -/
 theorem roundtrip (enc : M → Bytes) (size : M → Nat) (swap : Bool) (m : M) (snap : Bytes) (s : Stream)
-    (hcodec : ∀ m1 m2, apply m1 (enc m2) = some m2) (hH : ∀ x, DigestOK (H x))
+    (hcodec : apply m0 (enc m) = some m) (hH : ∀ x, DigestOK (H x))
     (hw : writeStream H enc size swap m snap = some s) :
     readStream H apply m0 s = .ok (m, snap.take (size m)) := by
   unfold writeStream at hw
@@ -544,19 +553,16 @@ theorem data_byte_damage_rejected (ms : List (Bytes × Bytes)) (pos val i : Nat)
     · left; rw [← hn]; exact hdiff
     · right; rw [← hn]; exact hdiff
 
-/-- **Any single-byte change: same extraction or rejected.** For an accepted archive, whatever
-    byte is changed to whatever value — header, data of any member, padding, trailer — every
-    view the tar reader can present is either rejected or extracts exactly the original
-    metadata and state. The only assumption is collision-freeness of `H` on the values involved:
-    a changed meta.json / state.bin member with an unchanged digest is an unchanged member. -/
-theorem single_byte_damage_same_or_rejected (ms : List (Bytes × Bytes)) (pos val : Nat) (m : M) (st : Bytes)
+/-- the three shapes a single-byte change can give the reader's view all end the same way -/
+theorem view_same_or_rejected (ms : List (Bytes × Bytes)) (val : Nat) (m : M) (st : Bytes)
     (hok : readStream H apply m0 ⟨ms.map full, .eof⟩ = .ok (m, st))
     (hcf : ∀ i k x, ms[i]? = some x → (x.1 = nMeta ∨ x.1 = nState) →
-      H (cat x.1 ((setByte ms i k val).map full)) = H (cat x.1 (ms.map full)) → setByte ms i k val = ms) :
-    ∀ v ∈ flipViews ms pos val,
-      readStream H apply m0 v = .ok (m, st) ∨ ∃ e, readStream H apply m0 v = .error e := by
-  intro v hv
-  rcases flipFrom_shape val 0 ms pos v hv with he | rfl | ⟨i, k, hi, rfl⟩
+      H (cat x.1 ((setByte ms i k val).map full)) = H (cat x.1 (ms.map full)) → setByte ms i k val = ms)
+    (v : Stream)
+    (hshape : v.ending = .err ∨ v = ⟨ms.map full, .eof⟩ ∨
+      ∃ i k, i < ms.length ∧ v = ⟨(setByte ms i k val).map full, .eof⟩) :
+    readStream H apply m0 v = .ok (m, st) ∨ ∃ e, readStream H apply m0 v = .error e := by
+  rcases hshape with he | rfl | ⟨i, k, hi, rfl⟩
   · right; exact incomplete_stream_rejected H apply m0 v (Or.inl he)
   · left; exact hok
   · have hx : ms[i]? = some ms[i] := by simp [hi]
@@ -585,6 +591,76 @@ theorem single_byte_damage_same_or_rejected (ms : List (Bytes × Bytes)) (pos va
           (metas_map_full_setByte_other ms i k val hn1)
           (cat_map_full_setByte_other ms i k val nState hn2) hok hr
         rw [this.1, this.2]
+
+/-- **Any single-byte change: same extraction or rejected.** For an accepted archive, whatever
+    byte is changed to whatever value — header, data of any member, padding, trailer — every
+    view the tar reader can present is either rejected or extracts exactly the original
+    metadata and state. The only assumption is collision-freeness of `H` on the values involved:
+    a changed meta.json / state.bin member with an unchanged digest is an unchanged member. -/
+theorem single_byte_damage_same_or_rejected (ms : List (Bytes × Bytes)) (pos val : Nat) (m : M) (st : Bytes)
+    (hok : readStream H apply m0 ⟨ms.map full, .eof⟩ = .ok (m, st))
+    (hcf : ∀ i k x, ms[i]? = some x → (x.1 = nMeta ∨ x.1 = nState) →
+      H (cat x.1 ((setByte ms i k val).map full)) = H (cat x.1 (ms.map full)) → setByte ms i k val = ms) :
+    ∀ v ∈ flipViews ms pos val,
+      readStream H apply m0 v = .ok (m, st) ∨ ∃ e, readStream H apply m0 v = .error e := by
+  intro v hv
+  exact view_same_or_rejected H apply m0 ms val m st hok hcf v (flipFrom_shape val 0 ms pos v hv)
+
+/-! ## header bytes -/
+
+/-- **A changed header byte outside the checksum field is rejected by the checksum.** For a
+    header block whose bytes are all ASCII (true of every header `write` produces: octal numbers,
+    ASCII names, `ustar` magic — checked by the harness on every archive) and that passes the gate,
+    changing any single byte other than the 8 checksum bytes — name, mode, size, mtime, type flag,
+    magic, … — to any other byte value makes the block fail the gate: both the unsigned and the
+    signed sum move away from the stored value. -/
+theorem header_byte_change_rejected (blk : Bytes) (p v x : Nat) (hx : blk[p]? = some x)
+    (hascii : ∀ b ∈ blk, b < 128) (hok : checksumOK blk = true)
+    (hout : ¬ (148 ≤ p ∧ p < 156)) (hv : v ≠ x) (hv256 : v < 256) :
+    checksumOK (blk.set p v) = false :=
+  checksum_detects_change blk p v x hx hascii hok hout hv hv256
+
+/-- **A changed checksum-field byte: same value or rejected.** Inside the checksum field the sums
+    do not move; the block passes the gate exactly when the field still parses (`parseOctal`) to
+    the value it held, and then every other byte the reader looks at is unchanged. -/
+theorem checksum_field_change_same_or_rejected (blk : Bytes) (p v : Nat)
+    (hascii : ∀ b ∈ blk, b < 128) (hok : checksumOK blk = true) (hin : 148 ≤ p ∧ p < 156) :
+    (checksumOK (blk.set p v) = true ↔
+      parseOctal (chkField (blk.set p v)) = parseOctal (chkField blk)) ∧
+    slice 0 148 0 (blk.set p v) = slice 0 148 0 blk ∧
+    slice 156 512 0 (blk.set p v) = slice 156 512 0 blk :=
+  ⟨checksum_field_change blk p v hascii hok hin,
+   slice_set_outside 0 148 blk 0 p v (by omega), slice_set_outside 156 512 blk 0 p v (by omega)⟩
+
+/-- On the archive: a changed byte in the header of member `j` either leaves the reader's view of
+    the whole archive exactly as it was (only possible inside the checksum field, by the two
+    theorems above) or makes `Next` fail at that member, which `read` reports as an error. -/
+theorem header_damage_identical_or_rejected (hs : List Bytes) (ms : List (Bytes × Bytes))
+    (pos val j : Nat) (r : Region) (hlen : hs.length = ms.length)
+    (hr : r ∈ layout (sizesOf ms)) (hc : r.contains pos = true) (hcls : r.cls = .header j) :
+    ∃ h, hs[j]? = some h ∧
+      (checksumOK (h.set (pos - r.start) val) = true → flipViewsH hs ms pos val = [⟨ms.map full, .eof⟩]) ∧
+      (checksumOK (h.set (pos - r.start) val) = false →
+        ∀ v ∈ flipViewsH hs ms pos val, ∃ e, readStream H apply m0 v = .error e) := by
+  obtain ⟨_, h, hh, hf⟩ := flipFromH_header val 0 0 hs ms pos r j hlen hr hc hcls
+  refine ⟨h, by simpa using hh, ?_, ?_⟩
+  · intro hk; unfold flipViewsH; rw [hf]; simp [hk]
+  · intro hk v hv
+    unfold flipViewsH at hv; rw [hf] at hv
+    simp only [hk, Bool.false_eq_true, if_false, List.mem_singleton] at hv
+    subst hv
+    exact incomplete_stream_rejected H apply m0 _ (Or.inl rfl)
+
+/-- `single_byte_damage_same_or_rejected` for the header-aware byte model the driver executes. -/
+theorem single_byte_damage_same_or_rejected_exact (hs : List Bytes) (ms : List (Bytes × Bytes))
+    (pos val : Nat) (m : M) (st : Bytes)
+    (hok : readStream H apply m0 ⟨ms.map full, .eof⟩ = .ok (m, st))
+    (hcf : ∀ i k x, ms[i]? = some x → (x.1 = nMeta ∨ x.1 = nState) →
+      H (cat x.1 ((setByte ms i k val).map full)) = H (cat x.1 (ms.map full)) → setByte ms i k val = ms) :
+    ∀ v ∈ flipViewsH hs ms pos val,
+      readStream H apply m0 v = .ok (m, st) ∨ ∃ e, readStream H apply m0 v = .error e := by
+  intro v hv
+  exact view_same_or_rejected H apply m0 ms val m st hok hcf v (flipFromH_shape val 0 hs ms pos v hv)
 
 /-! ## gzip wrapper and restore -/
 
@@ -626,6 +702,52 @@ theorem gz_rejected (g : GzStream)
         | extra => exact ⟨_, rfl⟩
       · rw [hr] at h; cases h
 
+/-- **Gzip trailer change or truncation ⇒ rejected, restore unreachable.** Given what
+    `compress/gzip` is trusted to report (`GzContract`), `Verify`/`Read` return an error — during
+    `read`, or at the latest when `concludeGzipRead` drains the stream — and `Restore` does not
+    apply the raft callback. -/
+theorem gz_trailer_or_truncation_rejected {ρ : Type} (raftRestore : M → Bytes → ρ) (d : GzDamage)
+    (hd : d = .trailer ∨ d = .truncated) (g0 g : GzStream) (hc : GzContract d g0 g) :
+    (∃ e, readGz H apply m0 g = .error e) ∧ ∃ e, restore H apply m0 raftRestore g = .error e := by
+  have hrej : ∃ e, readGz H apply m0 g = .error e := by
+    apply gz_rejected
+    have hc' : g.headerOk = false ∨ g.tail = .corrupt ∨ g.inner.ending = .err ∨
+        ∃ x ∈ g.inner.members, x.short = true := by
+      rcases hd with rfl | rfl <;> exact hc
+    rcases hc' with h | h | h | h
+    · exact Or.inl h
+    · right; left; rw [h]; decide
+    · right; right; exact incomplete_stream_rejected H apply m0 _ (Or.inl h)
+    · right; right; exact incomplete_stream_rejected H apply m0 _ (Or.inr h)
+  refine ⟨hrej, ?_⟩
+  obtain ⟨e, he⟩ := hrej
+  exact ⟨e, by simp [restore, he]⟩
+
+/-- **Things after the gzip member, as the code handles them.** Trailing garbage and a further
+    member with content are rejected (`concludeGzipRead`: drain error, resp. "unread uncompressed
+    bytes remain") and never reach restore; a further EMPTY member is invisible: same verdict,
+    same extraction. -/
+theorem gz_appended {ρ : Type} (raftRestore : M → Bytes → ρ) (d : GzDamage) (g0 g : GzStream)
+    (hc : GzContract d g0 g) :
+    (d = .garbageAfter ∨ d = .dataMemberAfter →
+      (∃ e, readGz H apply m0 g = .error e) ∧ ∃ e, restore H apply m0 raftRestore g = .error e) ∧
+    (d = .emptyMemberAfter → readGz H apply m0 g = readGz H apply m0 g0 ∧
+      restore H apply m0 raftRestore g = restore H apply m0 raftRestore g0) := by
+  constructor
+  · intro hd
+    have hrej : ∃ e, readGz H apply m0 g = .error e := by
+      apply gz_rejected
+      rcases hd with rfl | rfl
+      · right; left; rw [hc.2.2]; decide
+      · right; left; rw [hc.2.2]; decide
+    refine ⟨hrej, ?_⟩
+    obtain ⟨e, he⟩ := hrej
+    exact ⟨e, by simp [restore, he]⟩
+  · rintro rfl
+    obtain ⟨h1, h2, h3⟩ := hc
+    have : readGz H apply m0 g = readGz H apply m0 g0 := by simp [readGz, h1, h2, h3]
+    exact ⟨this, by simp [restore, this]⟩
+
 /-! ## non-vacuity -/
 
 /-- SHA-256 as implemented for the engine meets `DigestOK`, so `roundtrip` applies to the very
@@ -634,7 +756,7 @@ theorem sha256_digestOK (x : Bytes) : DigestOK (CV.Sha256.sha256 x) :=
   ⟨CV.Sha256.sha256_length x, CV.Sha256.sha256_byte x⟩
 
 /-- a codec satisfying `hcodec` exists (identity on byte strings) -/
-example : ∀ (m1 m2 : Bytes), (fun (_ : Bytes) b => some b) m1 (id m2) = some m2 := by intros; rfl
+example : ∀ (m0 m : Bytes), (fun (_ : Bytes) b => some b) m0 (id m) = some m := by intros; rfl
 
 /-- `SumsLast` holds for the member list `write` produces -/
 example (mb st sums : Bytes) : SumsLast [(nMeta, mb), (nState, st), (nSums, sums)] :=
@@ -701,6 +823,21 @@ theorem single_byte_damage_nonvacuous :
     | i + 3, hx => simp [ms] at hx
 
 example : classify (sizesOf [(nMeta, [1]), (nState, [2]), (nSums, [3])]) 514 = some (.pad 0) := by decide
+
+/-- hypotheses of `header_byte_change_rejected` / `checksum_field_change_same_or_rejected` are
+    satisfiable: an all-NUL block whose checksum field holds "400" (= 256 = eight spaces) is ASCII
+    and passes the gate; changing byte 3 to 'a' fails it; changing the NUL after "400" inside the
+    field to a space keeps the parsed value and passes -/
+def exBlk : Bytes := List.replicate 148 0 ++ [52, 48, 48, 0, 32, 32, 32, 32]
+set_option maxRecDepth 8000 in
+example : checksumOK exBlk = true ∧ (∀ b ∈ exBlk, b < 128) := by decide
+set_option maxRecDepth 8000 in
+example : checksumOK (exBlk.set 3 97) = false := by decide
+set_option maxRecDepth 8000 in
+example : checksumOK (exBlk.set 151 32) = true := by decide
+set_option maxRecDepth 8000 in
+example : checksumOK (exBlk.set 148 53) = false := by decide
+example : parseOctal [48, 48, 48, 52, 48, 48, 0, 32] = some 256 := by decide
 
 -- executable sanity tests of the model (tests, not theorems)
 #guard (truncStream [(nMeta, [1, 2]), (nState, [3]), (nSums, [4, 5, 6])] 2562).ending == .err
